@@ -170,15 +170,41 @@ pub struct Ep {
     pub phase: &'static str,
     reference: HashMap<&'static str, Vec<u8>>,
     closed: bool,
+    /// second half of a handshake message whose first half A has already received (fragment reassembly in progress)
+    pending_fragment: Option<Vec<u8>>,
+    fragment_mode: bool,
+}
+
+/// Split a one-message handshake datagram (record + handshake header + body) into two fragments.
+pub fn split_handshake(d: &[u8]) -> Option<(Vec<u8>, Vec<u8>)> {
+    if d.len() < 25 + 4 || d[0] != 22 {
+        return None;
+    }
+    let body = &d[25..];
+    let total = body.len();
+    let cut = total / 2;
+    let make = |off: usize, part: &[u8], seq_bump: u8| {
+        let mut r = d[..13].to_vec();
+        r[10] = r[10].wrapping_add(seq_bump);
+        let mut hs = d[13..25].to_vec();
+        hs[6..9].copy_from_slice(&(off as u32).to_be_bytes()[1..]);
+        hs[9..12].copy_from_slice(&(part.len() as u32).to_be_bytes()[1..]);
+        let len = (hs.len() + part.len()) as u16;
+        r[11..13].copy_from_slice(&len.to_be_bytes());
+        r.extend_from_slice(&hs);
+        r.extend_from_slice(part);
+        r
+    };
+    Some((make(0, &body[..cut], 0), make(cut, &body[cut..], 1)))
 }
 
 impl Ep {
     /// `post_hvr`: the client has received a HelloVerifyRequest (from a cookie-exchanging server, which rustrtc's own
     /// server is not) and answered it; only the pre-handshake phase can be explored in that state.
-    pub async fn build(a_is_client: bool, post_hvr: bool) -> Result<Ep, String> {
+    pub async fn build(a_is_client: bool, post_hvr: bool, fragment_mode: bool) -> Result<Ep, String> {
         let reference = reference().await?;
         let pair = Pair::new(a_is_client).await?;
-        let mut ep = Ep { pair, phase: "pre", reference, closed: false };
+        let mut ep = Ep { pair, phase: "pre", reference, closed: false, pending_fragment: None, fragment_mode };
         if a_is_client && post_hvr {
             let hvr = ep.genuine("dg.hvr").ok_or("no HelloVerifyRequest")?;
             ep.pair.deliver_to_a(&hvr).await;
@@ -198,6 +224,24 @@ impl Ep {
                 }
                 if self.pair.connected() {
                     return Err("handshake already complete at the mid-handshake stop".into());
+                }
+                if self.fragment_mode {
+                    // the largest pending handshake message for A arrives in two fragments; A gets the first one only
+                    if let Some(i) = (0..self.pair.to_a.len()).filter(|&i| self.pair.to_a[i].first() == Some(&22) && self.pair.to_a[i][3..5] == [0, 0]).max_by_key(|&i| self.pair.to_a[i].len()) {
+                        // everything queued before it is delivered first (message order)
+                        let before: Vec<Vec<u8>> = self.pair.to_a.drain(..i).collect();
+                        for d in before {
+                            self.pair.deliver_to_a(&d).await;
+                        }
+                        let whole = self.pair.to_a.pop_front().unwrap();
+                        if let Some((f1, f2)) = split_handshake(&whole) {
+                            self.pair.deliver_to_a(&f1).await;
+                            self.pending_fragment = Some(f2);
+                        } else {
+                            self.pair.to_a.push_front(whole);
+                        }
+                        pump_rounds(&mut [&mut self.pair.a.task], 2).await;
+                    }
                 }
                 self.phase = "mid";
             }
@@ -222,6 +266,12 @@ impl Ep {
     pub fn genuine(&self, tpl: &str) -> Option<Vec<u8>> {
         if let Some(d) = self.pair.to_a.iter().find(|d| classify(d) == tpl) {
             return Some(d.clone());
+        }
+        if tpl == "dg.frag" {
+            if let Some(f) = &self.pending_fragment {
+                return Some(f.clone());
+            }
+            return self.reference.get("dg.cert").and_then(|d| split_handshake(d)).map(|(_, f2)| f2);
         }
         if tpl == "dg.hvr" {
             // rustrtc's server never sends a HelloVerifyRequest (its client handles one): built with the real encoders
@@ -258,6 +308,9 @@ impl Ep {
     pub async fn still_alive(&mut self) -> bool {
         if self.closed || self.pair.a.task.panicked.is_some() {
             return false;
+        }
+        if let Some(f) = self.pending_fragment.take() {
+            self.pair.to_a.push_front(f);
         }
         drain(&self.pair.a.sock, &mut self.pair.to_a);
         drain(&self.pair.b.sock, &mut self.pair.to_b);
